@@ -16,7 +16,9 @@ import shutil
 import subprocess
 import sys
 import tempfile
+import threading
 import time
+from concurrent.futures import ThreadPoolExecutor
 
 VERIF = os.path.dirname(os.path.dirname(os.path.abspath(__file__)))
 REPO = os.environ.get("VERIF_REPO", "/repo")
@@ -47,6 +49,7 @@ class Ctx:
             atexit.register(shutil.rmtree, self.scratch, True)
         self.vh = None
         self.ntlc = 0
+        self.lock = threading.Lock()
         # evidence accumulators
         self.states = 0
         self.transitions = 0
@@ -75,8 +78,9 @@ class Ctx:
         capture: path; lines printed by PrintT(ToJson(..)) (they start with a double quote)
         are written there.  Returns dict(states, distinct, depth, out, ok).
         """
-        self.ntlc += 1
-        d = os.path.join(self.scratch, "tlc%d" % self.ntlc)
+        with self.lock:
+            self.ntlc += 1
+            d = os.path.join(self.scratch, "tlc%d" % self.ntlc)
         os.makedirs(d)
         for f in os.listdir(SPECS):
             if f.endswith(".tla"):
@@ -156,13 +160,20 @@ class Ctx:
             tail = "\n".join(out.splitlines()[-60:])
             raise MachineryError("TLC did not accept the specification %s (rc=%s):\n%s"
                                  % (module, p.returncode, tail))
-        self.states += res.get("distinct", 0)
-        self.transitions += res.get("generated", 0)
-        self.tlc_runs.append({k: res[k] for k in res if k not in ("out",)})
+        with self.lock:
+            self.states += res.get("distinct", 0)
+            self.transitions += res.get("generated", 0)
+            self.tlc_runs.append({k: res[k] for k in res if k not in ("out",)})
         self.log("TLC %s: %s distinct states, %s generated, %d behaviours emitted, %.1fs"
                  % (module, res.get("distinct"), res.get("generated"), ncap, res["wall_s"]))
         shutil.rmtree(os.path.join(d, "meta"), True)
         return res
+
+    def tlc_parallel(self, jobs, max_procs=8):
+        """jobs: list of kwargs dicts for self.tlc; run concurrently; returns results in order."""
+        with ThreadPoolExecutor(max_workers=max_procs) as ex:
+            futs = [ex.submit(lambda kw=kw: self.tlc(**kw)) for kw in jobs]
+            return [f.result() for f in futs]
 
     # -------------------------------------------------------------- harness
     def goenv(self):
